@@ -4,6 +4,7 @@ import GettsimVerif.Core.Levels
 import GettsimVerif.Core.VecDtype
 import GettsimVerif.Core.Process
 import GettsimVerif.Core.Typing
+import GettsimVerif.Core.Sym
 /- Dispatch of the line protocol to the executable models. -/
 open Lean GV
 
@@ -265,8 +266,74 @@ def opTyping (op : String) (j : Json) : Except String Json := do
       (Typing.convertAll types (← jTable (← field j "table"))))
   | _ => throw "unknown typing op"
 
+/-! ### symbolic evaluation of rule chains in one real variable -/
+
+def jChain (j : Json) : Except String Sym.Chain := do
+  let consts ← (← jArr (← field j "consts")).mapM fun e => match e with
+    | .arr #[.str n, v] => do pure (n, ← jVal v)
+    | _ => throw "bad const"
+  let nodes ← (← jArr (← field j "nodes")).mapM fun e => do
+    pure ({ name := ← str e "name", fn := ← jFun (← field e "fn"), argNames := ← strs e "argNames" } : Sym.ChainNode)
+  pure { wname := ← str j "wname", consts := consts, nodes := nodes }
+
+def jBreaks (j : Json) : Except String (List (Rat × Bool)) := do
+  (← jArr j).mapM fun e => match e with
+    | .arr #[q, .bool b] => do pure (← jRat q, b)
+    | _ => throw "bad breakpoint"
+
+def oPieces (pcs : Sym.Pieces) : Json :=
+  .arr (pcs.map fun (I, a, b) => Json.mkObj [("lo", oRat I.lo), ("loClosed", .bool I.loClosed),
+    ("hi", match I.hi with | some h => oRat h | none => Json.null), ("hiClosed", .bool I.hiClosed),
+    ("a", oRat a), ("b", oRat b)]).toArray
+
+/-- {"chain": C, "target": t, "start": q, "bs": [[q, leftClosed]], "checks": [{"k": "nonneg"} | {"k": "nondec"} |
+    {"k": "zeroBelow", "g": q, "incl": b} | {"k": "constantAbove", "c": q, "incl": b} | {"k": "continuousAt", "m": q} |
+    {"k": "sumEq", "t1": .., "t2": .., "t3": ..}]} -/
+def opSym (j : Json) : Except String Json := do
+  let C ← jChain (← field j "chain")
+  let target ← str j "target"
+  let start ← rat j "start"
+  let bs ← jBreaks (← field j "bs")
+  let pcs? := Sym.affineOn C target start bs
+  let checks ← jArr (← field j "checks")
+  let results ← checks.mapM fun c => do
+    let k ← str c "k"
+    let r : Bool ← match k with
+      | "sumEq" => pure (Sym.sumEqChk C (← str c "t1") (← str c "t2") (← str c "t3") start bs)
+      | _ => match pcs? with
+        | none => pure false
+        | some pcs => match k with
+          | "nonneg" => pure (Sym.nonnegChk pcs)
+          | "nondec" => pure (Sym.nondecChk pcs)
+          | "zeroBelow" => do pure (Sym.zeroBelowChk (← rat c "g") (← bool c "incl") pcs)
+          | "constantAbove" => do pure (Sym.constantAboveChk (← rat c "c") (← bool c "incl") pcs)
+          | "continuousAt" => do pure (Sym.continuousAtChk (← rat c "m") pcs)
+          | _ => throw s!"unknown check {k}"
+    pure (Json.bool r)
+  -- where symbolic evaluation fails: the first piece on which the chain is not certifiably affine
+  let failing : Json := match pcs? with
+    | some _ => Json.null
+    | none => match (Sym.pieces start bs).find? (fun I => (Sym.affinePiece C target I).isNone) with
+      | some I => Json.mkObj [("lo", oRat I.lo), ("hi", match I.hi with | some h => oRat h | none => Json.null)]
+      | none => Json.null
+  pure (Json.mkObj [("pieces", match pcs? with | some p => oPieces p | none => Json.null),
+                    ("results", .arr results.toArray), ("failing_piece", failing)])
+
+/-- concrete run of the chain at given wages (for the correspondence with the real system) -/
+def opChainRun (j : Json) : Except String Json := do
+  let C ← jChain (← field j "chain")
+  let targets ← strs j "targets"
+  let ws ← rats j "w"
+  let rows : List Json := ws.map fun w =>
+    Json.arr (targets.map fun t => match C.valAt t w with
+      | some q => oRat q
+      | none => Json.null).toArray
+  pure (Json.arr rows.toArray)
+
 def dispatch (j : Json) : Except String Json := do
   let op ← str j "op"
+  if op = "sym" then return ← opSym j
+  if op = "chain_run" then return ← opChainRun j
   if op.startsWith "typing_" then return ← opTyping op j
   match op with
   | "levels" => opLevels j
